@@ -499,6 +499,13 @@ func Range[M ~map[K]V, K comparable, V any](m M, label int32) iter.Seq2[K, V] {
 				names[i] = any(k).(fmt.Stringer).String()
 			}
 			sort.Sort(&byName[K]{keys, names})
+		} else if _, ok := any(zero).(interface{ Name() string }); ok {
+			// pointers to named things (classes, modules, methods): ordered by their name
+			names := make([]string, len(keys))
+			for i, k := range keys {
+				names[i] = any(k).(interface{ Name() string }).Name()
+			}
+			sort.Sort(&byName[K]{keys, names})
 		} else {
 			switch reflect.TypeOf(zero).Kind() {
 			case reflect.String:
